@@ -942,10 +942,15 @@ class Evaluator:
             self.tick()
             for n, v in zip(names, combo):
                 local.vars[n] = v
-            v = self.eval(value, local)
+            # the equivalent explicit loop tests the filter first and
+            # evaluates the element expression for accepted elements only
+            if "value-before-filter" in self.flags:
+                v = self.eval(value, local)
             if cond is not None and "filter-ignored" not in self.flags:
                 if not self.truth(self.eval(cond, local)):
                     continue
+            if "value-before-filter" not in self.flags:
+                v = self.eval(value, local)
             out.append(v)
         return out if ckind == "list" else mv.MSet(out)
 
@@ -958,11 +963,15 @@ class Evaluator:
         for v in vals:
             self.tick()
             local.vars[var] = v
-            kk = self.eval(key, local)
-            vv = self.eval(value, local)
+            if "value-before-filter" in self.flags:
+                kk = self.eval(key, local)
+                vv = self.eval(value, local)
             if cond is not None and "filter-ignored" not in self.flags:
                 if not self.truth(self.eval(cond, local)):
                     continue
+            if "value-before-filter" not in self.flags:
+                kk = self.eval(key, local)
+                vv = self.eval(value, local)
             pairs.append((kk, vv))
         return mv.MMap(pairs)
 
